@@ -133,28 +133,254 @@ Fixpoint runs_on (st : overrides) (a : application) (lines : list (list str)) : 
   | l :: r => let '(st', sm) := run_on st a l in sm :: runs_on st' a r
   end.
 
-(* ---- table styles ---- *)
-Inductive preset := PBorderless | PCompact | PAscii | PSolid.
-Definition field := N.          (* which character of the border style: 0 line_hc, 1 line_vc, 2 crossing_c, ... *)
-Inductive stop := SMk (p : preset) | SCustom (i : nat) (f : field) (v : str) | SRender (i : nat).
-Record tstyle := { ts_preset : preset; ts_custom : list (field * str) }.
-(* what a rendering of style i depends on: its preset and the customisations applied to it, in order *)
-Definition style_step (sts : list tstyle) (o : stop) : list tstyle * option tstyle :=
-  match o with
-  | SMk p => (sts ++ [{| ts_preset := p; ts_custom := [] |}], None)
-  | SCustom i f v =>
-    (match nth_error sts i with
-     | Some s => firstn i sts ++ {| ts_preset := ts_preset s; ts_custom := ts_custom s ++ [(f, v)] |} :: skipn (S i) sts
-     | None => sts end, None)
-  | SRender i => (sts, nth_error sts i)
+(* ---- what the handler of a run is given; the whole observation of a run ---- *)
+(* the arguments the resolver parsed for the selected command (ConsoleApplication.run hands them on, C04) *)
+Definition handler_args (a : application) (toks : list str) (x : action) : option (fmt * args) :=
+  match x with
+  | AHandler _ => match resolve a toks with Ok (_, f, v) => Some (f, v) | Err _ => None end
+  | _ => None
   end.
-Fixpoint style_run (sts : list tstyle) (ops : list stop) : list (option tstyle) :=
-  match ops with
+Definition obs := (summary * option (fmt * args))%type.
+Definition obs_on (st : overrides) (a : application) (toks : list str) : overrides * obs :=
+  let '(st', sm) := run_on st a toks in (st', (sm, handler_args (apply_state st a) toks (sm_action sm))).
+Fixpoint runs_obs_on (st : overrides) (a : application) (lines : list (list str)) : list obs :=
+  match lines with
   | [] => []
-  | o :: r => let '(sts', out) := style_step sts o in out :: style_run sts' r
+  | l :: r => let '(st', o) := obs_on st a l in o :: runs_obs_on st' a r
   end.
 
+(* ---- the raw-arguments object ----
+   run() is handed an object holding the token list.  HelpResolver.resolve (called by the help handler when a command is
+   named) drops a leading "help" token: before the repair by `del args.tokens[0]` - in the CALLER's object -, since then
+   on a copy.  in_place = the behaviour before the repair. *)
+Definition raw_after (in_place : bool) (x : action) (toks : list str) : list str :=
+  match x, toks with
+  | AHelpCmd _, t :: r => if in_place && str_eqb t S_help then r else toks
+  | AHelpFail _, t :: r => if in_place && str_eqb t S_help then r else toks
+  | _, _ => toks
+  end.
+(* ONE raw-arguments object handed to run() n times in a row: every run reads the tokens the object holds by then *)
+Fixpoint run_same (in_place : bool) (n : nat) (st : overrides) (a : application) (toks : list str) : overrides * list (list str * obs) :=
+  match n with
+  | O => (st, [])
+  | S n' =>
+    let '(st', o) := obs_on st a toks in
+    let '(st'', r) := run_same in_place n' st' a (raw_after in_place (sm_action (fst o)) toks) in
+    (st'', (toks, o) :: r)
+  end.
+(* a history in which every line is one object run twice *)
+Fixpoint runs_twice_on (in_place : bool) (st : overrides) (a : application) (lines : list (list str)) : list (list str * obs) :=
+  match lines with
+  | [] => []
+  | l :: r => let '(st', os) := run_same in_place 2 st a l in os ++ runs_twice_on in_place st' a r
+  end.
+
+(* ---- table styles: objects on a heap ----
+   A TableStyle holds its own scalar fields and a REFERENCE to a BorderStyle object.  BorderStyle.none() / ascii() /
+   solid() create the preset once, keep it in a class attribute and hand out a copy of it (since fix 30a48a0; share =
+   the behaviour before: the cached object itself).  TableStyle.borderless() / compact() then assign three characters
+   of the border object they got.  A field value is only stored and shown (val: a character, a format string, a Style). *)
+Definition val := sexp.
+Definition vstr (s : str) : val := L [A 3%Z; sStr s].
+Definition vnone : val := L [A 0%Z].
+Record border := { bd_chars : list val;      (* line_ht hc hb, line_vl vc vr, corner_tl tr bl br, crossing_c l t r b *)
+                   bd_style : val }.
+Record tstyle := { ts_pad : val; ts_hfmt : val; ts_cfmt : val; ts_aligns : list Z; ts_dalign : Z;
+                   ts_hstyle : val; ts_cstyle : val; ts_border : nat }.
+Inductive preset := PBorderless | PCompact | PAscii | PSolid.
+Inductive bpreset := BNone | BAscii | BSolid.
+Record world := { w_heap : list border; w_none : option nat; w_ascii : option nat; w_solid : option nat;
+                  w_styles : list tstyle }.
+Definition world0 : world := {| w_heap := []; w_none := None; w_ascii := None; w_solid := None; w_styles := [] |}.
+
+Definition c_dash := vstr [45]%N. Definition c_bar := vstr [124]%N. Definition c_plus := vstr [43]%N.
+Definition c_empty := vstr []. Definition c_space := vstr [32]%N. Definition c_eq := vstr [61]%N.
+Definition preset_border (b : bpreset) : border :=
+  match b with
+  | BAscii => {| bd_chars := [c_dash; c_dash; c_dash; c_bar; c_bar; c_bar; c_plus; c_plus; c_plus; c_plus;
+                              c_plus; c_plus; c_plus; c_plus; c_plus]; bd_style := vnone |}
+  | BNone => {| bd_chars := [c_empty; c_empty; c_empty; c_empty; c_space; c_empty; c_empty; c_empty; c_empty; c_empty;
+                             c_empty; c_empty; c_empty; c_empty; c_empty]; bd_style := vnone |}
+  | BSolid => {| bd_chars := [vstr [9472]%N; vstr [9472]%N; vstr [9472]%N; vstr [9474]%N; vstr [9474]%N; vstr [9474]%N;
+                              vstr [9484]%N; vstr [9488]%N; vstr [9492]%N; vstr [9496]%N;
+                              vstr [9532]%N; vstr [9500]%N; vstr [9516]%N; vstr [9508]%N; vstr [9524]%N]; bd_style := vnone |}
+  end.
+Definition cache_of (w : world) (b : bpreset) : option nat :=
+  match b with BNone => w_none w | BAscii => w_ascii w | BSolid => w_solid w end.
+Definition set_cache (w : world) (b : bpreset) (c : nat) (h : list border) : world :=
+  match b with
+  | BNone => {| w_heap := h; w_none := Some c; w_ascii := w_ascii w; w_solid := w_solid w; w_styles := w_styles w |}
+  | BAscii => {| w_heap := h; w_none := w_none w; w_ascii := Some c; w_solid := w_solid w; w_styles := w_styles w |}
+  | BSolid => {| w_heap := h; w_none := w_none w; w_ascii := w_ascii w; w_solid := Some c; w_styles := w_styles w |}
+  end.
+Definition with_heap (w : world) (h : list border) : world :=
+  {| w_heap := h; w_none := w_none w; w_ascii := w_ascii w; w_solid := w_solid w; w_styles := w_styles w |}.
+Definition with_styles (w : world) (s : list tstyle) : world :=
+  {| w_heap := w_heap w; w_none := w_none w; w_ascii := w_ascii w; w_solid := w_solid w; w_styles := s |}.
+Fixpoint upd_nth {X} (n : nat) (f : X -> X) (l : list X) : list X :=
+  match l, n with
+  | [], _ => []
+  | x :: r, O => f x :: r
+  | x :: r, S n' => x :: upd_nth n' f r
+  end.
+(* BorderStyle.<preset>(): the object the caller gets *)
+Definition get_border (share : bool) (w : world) (b : bpreset) : world * nat :=
+  let '(w1, c) := match cache_of w b with
+                  | Some c => (w, c)
+                  | None => (set_cache w b (length (w_heap w)) (w_heap w ++ [preset_border b]), length (w_heap w))
+                  end in
+  if share then (w1, c)
+  else (with_heap w1 (w_heap w1 ++ [nth c (w_heap w1) (preset_border b)]), length (w_heap w1)).   (* copy(cls._x) *)
+Definition set_char (k : nat) (v : val) (b : border) : border :=
+  {| bd_chars := upd_nth k (fun _ => v) (bd_chars b); bd_style := bd_style b |}.
+Definition fmt_plain := vstr [123;125]%N.                   (* "{}" *)
+Definition fmt_padded := vstr [32;123;125;32]%N.            (* " {} " *)
+Definition new_tstyle (hf cf : val) (b : nat) : tstyle :=
+  {| ts_pad := c_space; ts_hfmt := hf; ts_cfmt := cf; ts_aligns := []; ts_dalign := 0; ts_hstyle := vnone; ts_cstyle := vnone;
+     ts_border := b |}.
+(* TableStyle.borderless / compact / ascii / solid *)
+Definition mk_style (share : bool) (w : world) (p : preset) : world :=
+  match p with
+  | PBorderless =>
+    let '(w1, b) := get_border share w BNone in
+    let h := upd_nth b (fun x => set_char 10 c_space (set_char 4 c_space (set_char 1 c_eq x))) (w_heap w1) in
+    with_styles (with_heap w1 h) (w_styles w1 ++ [new_tstyle fmt_plain fmt_plain b])
+  | PCompact =>
+    let '(w1, b) := get_border share w BNone in
+    let h := upd_nth b (fun x => set_char 10 c_empty (set_char 4 c_space (set_char 1 c_empty x))) (w_heap w1) in
+    with_styles (with_heap w1 h) (w_styles w1 ++ [new_tstyle fmt_plain fmt_plain b])
+  | PAscii => let '(w1, b) := get_border share w BAscii in with_styles w1 (w_styles w1 ++ [new_tstyle fmt_padded fmt_padded b])
+  | PSolid => let '(w1, b) := get_border share w BSolid in with_styles w1 (w_styles w1 ++ [new_tstyle fmt_padded fmt_padded b])
+  end.
+
+Inductive tfield := FPad | FHfmt | FCfmt | FHstyle | FCstyle.
+Inductive sop :=
+| SMk (p : preset)
+| STSet (i : nat) (f : tfield) (v : val)        (* style.<field> = v *)
+| STDalign (i : nat) (z : Z)                     (* style.default_column_alignment = z *)
+| SAlign (i : nat) (col : nat) (al : Z)          (* style.set_column_alignment(col, al) *)
+| SAppendAlign (i : nat) (al : Z)                (* style.column_alignments.append(al): the list edited in place *)
+| SBSet (i : nat) (k : nat) (v : val)            (* style.border_style.<k-th character> = v *)
+| SBStyle (i : nat) (v : val)                    (* style.border_style.style = v *)
+| SRender (i : nat).
+Definition set_tfield (f : tfield) (v : val) (s : tstyle) : tstyle :=
+  match f with
+  | FPad => {| ts_pad := v; ts_hfmt := ts_hfmt s; ts_cfmt := ts_cfmt s; ts_aligns := ts_aligns s; ts_dalign := ts_dalign s; ts_hstyle := ts_hstyle s; ts_cstyle := ts_cstyle s; ts_border := ts_border s |}
+  | FHfmt => {| ts_pad := ts_pad s; ts_hfmt := v; ts_cfmt := ts_cfmt s; ts_aligns := ts_aligns s; ts_dalign := ts_dalign s; ts_hstyle := ts_hstyle s; ts_cstyle := ts_cstyle s; ts_border := ts_border s |}
+  | FCfmt => {| ts_pad := ts_pad s; ts_hfmt := ts_hfmt s; ts_cfmt := v; ts_aligns := ts_aligns s; ts_dalign := ts_dalign s; ts_hstyle := ts_hstyle s; ts_cstyle := ts_cstyle s; ts_border := ts_border s |}
+  | FHstyle => {| ts_pad := ts_pad s; ts_hfmt := ts_hfmt s; ts_cfmt := ts_cfmt s; ts_aligns := ts_aligns s; ts_dalign := ts_dalign s; ts_hstyle := v; ts_cstyle := ts_cstyle s; ts_border := ts_border s |}
+  | FCstyle => {| ts_pad := ts_pad s; ts_hfmt := ts_hfmt s; ts_cfmt := ts_cfmt s; ts_aligns := ts_aligns s; ts_dalign := ts_dalign s; ts_hstyle := ts_hstyle s; ts_cstyle := v; ts_border := ts_border s |}
+  end.
+Definition with_aligns (l : list Z) (s : tstyle) : tstyle :=
+  {| ts_pad := ts_pad s; ts_hfmt := ts_hfmt s; ts_cfmt := ts_cfmt s; ts_aligns := l; ts_dalign := ts_dalign s; ts_hstyle := ts_hstyle s; ts_cstyle := ts_cstyle s; ts_border := ts_border s |}.
+Definition with_dalign (z : Z) (s : tstyle) : tstyle :=
+  {| ts_pad := ts_pad s; ts_hfmt := ts_hfmt s; ts_cfmt := ts_cfmt s; ts_aligns := ts_aligns s; ts_dalign := z; ts_hstyle := ts_hstyle s; ts_cstyle := ts_cstyle s; ts_border := ts_border s |}.
+(* set_column_alignment: the list is extended with the default alignment up to the column, then the column is set *)
+Definition set_alignment (d : Z) (col : nat) (al : Z) (l : list Z) : list Z :=
+  upd_nth col (fun _ => al) (l ++ repeat d (S col - length l)).
+Definition border_of (w : world) (s : tstyle) : option border := nth_error (w_heap w) (ts_border s).
+Definition on_border (w : world) (i : nat) (f : border -> border) : world :=
+  match nth_error (w_styles w) i with
+  | Some s => with_heap w (upd_nth (ts_border s) f (w_heap w))
+  | None => w
+  end.
+(* what a rendering of style i reads: its fields and, through the reference, its border object *)
+Record view := { v_pad : val; v_hfmt : val; v_cfmt : val; v_aligns : list Z; v_dalign : Z; v_hstyle : val; v_cstyle : val;
+                 v_chars : list val; v_bstyle : val }.
+Definition view_of (w : world) (i : nat) : option view :=
+  match nth_error (w_styles w) i with
+  | Some s =>
+    match border_of w s with
+    | Some b => Some {| v_pad := ts_pad s; v_hfmt := ts_hfmt s; v_cfmt := ts_cfmt s; v_aligns := ts_aligns s; v_dalign := ts_dalign s;
+                        v_hstyle := ts_hstyle s; v_cstyle := ts_cstyle s; v_chars := bd_chars b; v_bstyle := bd_style b |}
+    | None => None
+    end
+  | None => None
+  end.
+Definition style_step (share : bool) (w : world) (o : sop) : world * option view :=
+  match o with
+  | SMk p => (mk_style share w p, None)
+  | STSet i f v => (with_styles w (upd_nth i (set_tfield f v) (w_styles w)), None)
+  | STDalign i z => (with_styles w (upd_nth i (with_dalign z) (w_styles w)), None)
+  | SAlign i col al => (with_styles w (upd_nth i (fun s => with_aligns (set_alignment (ts_dalign s) col al (ts_aligns s)) s) (w_styles w)), None)
+  | SAppendAlign i al => (with_styles w (upd_nth i (fun s => with_aligns (ts_aligns s ++ [al]) s) (w_styles w)), None)
+  | SBSet i k v => (on_border w i (set_char k v), None)
+  | SBStyle i v => (on_border w i (fun b => {| bd_chars := bd_chars b; bd_style := v |}), None)
+  | SRender i => (w, view_of w i)
+  end.
+Fixpoint style_run (share : bool) (w : world) (ops : list sop) : world * list (option view) :=
+  match ops with
+  | [] => (w, [])
+  | o :: r => let '(w', out) := style_step share w o in
+              let '(w'', outs) := style_run share w' r in
+              (w'', match o with SRender _ => out :: outs | _ => outs end)
+  end.
+
+(* the specification: every style a VALUE of its own; an operation naming style i rewrites element i and nothing else *)
+Definition init_view (p : preset) : view :=
+  match p with
+  | PBorderless => {| v_pad := c_space; v_hfmt := fmt_plain; v_cfmt := fmt_plain; v_aligns := []; v_dalign := 0; v_hstyle := vnone; v_cstyle := vnone;
+                      v_chars := bd_chars (set_char 10 c_space (set_char 4 c_space (set_char 1 c_eq (preset_border BNone)))); v_bstyle := vnone |}
+  | PCompact => {| v_pad := c_space; v_hfmt := fmt_plain; v_cfmt := fmt_plain; v_aligns := []; v_dalign := 0; v_hstyle := vnone; v_cstyle := vnone;
+                   v_chars := bd_chars (set_char 10 c_empty (set_char 4 c_space (set_char 1 c_empty (preset_border BNone)))); v_bstyle := vnone |}
+  | PAscii => {| v_pad := c_space; v_hfmt := fmt_padded; v_cfmt := fmt_padded; v_aligns := []; v_dalign := 0; v_hstyle := vnone; v_cstyle := vnone;
+                 v_chars := bd_chars (preset_border BAscii); v_bstyle := vnone |}
+  | PSolid => {| v_pad := c_space; v_hfmt := fmt_padded; v_cfmt := fmt_padded; v_aligns := []; v_dalign := 0; v_hstyle := vnone; v_cstyle := vnone;
+                 v_chars := bd_chars (preset_border BSolid); v_bstyle := vnone |}
+  end.
+Definition vset (f : tfield) (x : val) (v : view) : view :=
+  match f with
+  | FPad => {| v_pad := x; v_hfmt := v_hfmt v; v_cfmt := v_cfmt v; v_aligns := v_aligns v; v_dalign := v_dalign v; v_hstyle := v_hstyle v; v_cstyle := v_cstyle v; v_chars := v_chars v; v_bstyle := v_bstyle v |}
+  | FHfmt => {| v_pad := v_pad v; v_hfmt := x; v_cfmt := v_cfmt v; v_aligns := v_aligns v; v_dalign := v_dalign v; v_hstyle := v_hstyle v; v_cstyle := v_cstyle v; v_chars := v_chars v; v_bstyle := v_bstyle v |}
+  | FCfmt => {| v_pad := v_pad v; v_hfmt := v_hfmt v; v_cfmt := x; v_aligns := v_aligns v; v_dalign := v_dalign v; v_hstyle := v_hstyle v; v_cstyle := v_cstyle v; v_chars := v_chars v; v_bstyle := v_bstyle v |}
+  | FHstyle => {| v_pad := v_pad v; v_hfmt := v_hfmt v; v_cfmt := v_cfmt v; v_aligns := v_aligns v; v_dalign := v_dalign v; v_hstyle := x; v_cstyle := v_cstyle v; v_chars := v_chars v; v_bstyle := v_bstyle v |}
+  | FCstyle => {| v_pad := v_pad v; v_hfmt := v_hfmt v; v_cfmt := v_cfmt v; v_aligns := v_aligns v; v_dalign := v_dalign v; v_hstyle := v_hstyle v; v_cstyle := x; v_chars := v_chars v; v_bstyle := v_bstyle v |}
+  end.
+Definition vwith_aligns (l : list Z) (v : view) : view :=
+  {| v_pad := v_pad v; v_hfmt := v_hfmt v; v_cfmt := v_cfmt v; v_aligns := l; v_dalign := v_dalign v; v_hstyle := v_hstyle v; v_cstyle := v_cstyle v; v_chars := v_chars v; v_bstyle := v_bstyle v |}.
+Definition vwith_dalign (z : Z) (v : view) : view :=
+  {| v_pad := v_pad v; v_hfmt := v_hfmt v; v_cfmt := v_cfmt v; v_aligns := v_aligns v; v_dalign := z; v_hstyle := v_hstyle v; v_cstyle := v_cstyle v; v_chars := v_chars v; v_bstyle := v_bstyle v |}.
+Definition vwith_chars (l : list val) (v : view) : view :=
+  {| v_pad := v_pad v; v_hfmt := v_hfmt v; v_cfmt := v_cfmt v; v_aligns := v_aligns v; v_dalign := v_dalign v; v_hstyle := v_hstyle v; v_cstyle := v_cstyle v; v_chars := l; v_bstyle := v_bstyle v |}.
+Definition vwith_bstyle (x : val) (v : view) : view :=
+  {| v_pad := v_pad v; v_hfmt := v_hfmt v; v_cfmt := v_cfmt v; v_aligns := v_aligns v; v_dalign := v_dalign v; v_hstyle := v_hstyle v; v_cstyle := v_cstyle v; v_chars := v_chars v; v_bstyle := x |}.
+Definition spec_step (vs : list view) (o : sop) : list view :=
+  match o with
+  | SMk p => vs ++ [init_view p]
+  | STSet i f x => upd_nth i (vset f x) vs
+  | STDalign i z => upd_nth i (vwith_dalign z) vs
+  | SAlign i col al => upd_nth i (fun v => vwith_aligns (set_alignment (v_dalign v) col al (v_aligns v)) v) vs
+  | SAppendAlign i al => upd_nth i (fun v => vwith_aligns (v_aligns v ++ [al]) v) vs
+  | SBSet i k x => upd_nth i (fun v => vwith_chars (upd_nth k (fun _ => x) (v_chars v)) v) vs
+  | SBStyle i x => upd_nth i (vwith_bstyle x) vs
+  | SRender _ => vs
+  end.
+Definition spec_run (vs : list view) (ops : list sop) : list view := fold_left spec_step ops vs.
+Definition views (w : world) : list (option view) := map (view_of w) (seq 0 (length (w_styles w))).
+
 (* ---- wire ---- *)
+Definition dec_preset (s : sexp) : option preset :=
+  match s with A 0%Z => Some PBorderless | A 1%Z => Some PCompact | A 2%Z => Some PAscii | A 3%Z => Some PSolid | _ => None end.
+Definition dec_tfield (s : sexp) : option tfield :=
+  match s with A 0%Z => Some FPad | A 1%Z => Some FHfmt | A 2%Z => Some FCfmt | A 3%Z => Some FHstyle | A 4%Z => Some FCstyle | _ => None end.
+Definition dNat (s : sexp) : option nat := option_map N.to_nat (dN s).
+Definition dec_sop (s : sexp) : option sop :=
+  match s with
+  | L [A 0%Z; p] => option_map SMk (dec_preset p)
+  | L [A 1%Z; i; f; v] => match dNat i, dec_tfield f with Some i, Some f => Some (STSet i f v) | _, _ => None end
+  | L [A 2%Z; i; A z] => option_map (fun i => STDalign i z) (dNat i)
+  | L [A 3%Z; i; c; A z] => match dNat i, dNat c with Some i, Some c => Some (SAlign i c z) | _, _ => None end
+  | L [A 4%Z; i; A z] => option_map (fun i => SAppendAlign i z) (dNat i)
+  | L [A 5%Z; i; k; v] => match dNat i, dNat k with Some i, Some k => Some (SBSet i k v) | _, _ => None end
+  | L [A 6%Z; i; v] => option_map (fun i => SBStyle i v) (dNat i)
+  | L [A 7%Z; i] => option_map SRender (dNat i)
+  | _ => None
+  end.
+Definition enc_view (v : view) : sexp :=
+  L [v_pad v; v_hfmt v; v_cfmt v; L (map A (v_aligns v)); A (v_dalign v); v_hstyle v; v_cstyle v; L (v_chars v); v_bstyle v].
+Definition enc_obs (o : obs) : sexp :=
+  L [enc_settings (sm_settings (fst o)); enc_action (sm_action (fst o));
+     sOpt (fun fx => enc_args (fst fx) [] (snd fx)) (snd o)].
 Definition run_C17 (s : sexp) : sexp :=
   match s with
   | L [A 0%Z; a; lines] =>
@@ -162,10 +388,24 @@ Definition run_C17 (s : sexp) : sexp :=
     | Some a, Some lines =>
       match build_app a with
       | Err k => L [A (-3)%Z; A (ekind_code k)]
-      | Ok ap => L [A 0%Z; sList (fun sm => L [enc_settings (sm_settings sm); enc_action (sm_action sm)]) (runs_on [] ap lines)]
+      | Ok ap => L [A 0%Z; sList enc_obs (runs_obs_on [] ap lines)]
       end
     | _, _ => sBad
     end
-  | L [A 1%Z] => L [A 1%Z]      (* style orders / repeated renders: decided on the implementation side *)
+  | L [A 2%Z; a; lines] =>              (* every line: ONE raw-arguments object run twice *)
+    match dec_app a, dList (dList dStr) lines with
+    | Some a, Some lines =>
+      match build_app a with
+      | Err k => L [A (-3)%Z; A (ekind_code k)]
+      | Ok ap => L [A 0%Z; sList (fun to => enc_obs (snd to)) (runs_twice_on false [] ap lines)]
+      end
+    | _, _ => sBad
+    end
+  | L [A 1%Z; ops] =>                   (* table styles: what every rendering reads *)
+    match dList dec_sop ops with
+    | Some ops => L [A 1%Z; sList (sOpt enc_view) (snd (style_run false world0 ops))]
+    | None => sBad
+    end
+  | L [A 3%Z] => L [A 3%Z]              (* repeated renders of a component: decided on the implementation side *)
   | _ => sBad
   end.
